@@ -216,6 +216,38 @@ def _organic(item, out):
                 out["viol"].append({"sig": "C12/organic/map-vs-index/" + "+".join(bad), "input": f"{can}|{opt}",
                                     "what": f"{can}: import by atom-map number differs from the renamed index import in {bad}",
                                     "item": item, "detail": None})
+    # the class-level entry points StereoMolGraph.from_rdmol / MolGraph.from_rdmol give what the converter gives for the same
+    # options, whatever was imported before in this process (options must not stick between calls)
+    from stereomolgraph import MolGraph, StereoMolGraph
+    from ..snapshot import norm, snap
+
+    for can, iso in isos.items():
+        base = Chem.AddHs(iso)
+        for a in base.GetAtoms():
+            a.SetAtomMapNum(a.GetIdx() + 1)
+        for sc, um in ((False, False), (True, False), (False, True), (True, True), (False, False), (True, False)):
+            try:
+                got = StereoMolGraph.from_rdmol(base, use_atom_map_number=um, stereo_complete=sc)
+                ref = converter((um, sc, True, True))(base)
+                mg = MolGraph.from_rdmol(base, use_atom_map_number=um)
+            except Exception as e:
+                out["viol"].append({"sig": "C12/organic/classmethod/raised:" + type(e).__name__, "input": f"{can}|{sc}|{um}",
+                                    "what": f"from_rdmol({can}, stereo_complete={sc}, use_atom_map_number={um}) raised {e!r}",
+                                    "item": item, "detail": None})
+                continue
+            out["evals"] += 1
+            oc["classmethod"] = oc.get("classmethod", 0) + 1
+            a, b = norm(snap(got)), norm(snap(ref))
+            if a != b:
+                from ..snapshot import diff
+
+                out["viol"].append({"sig": "C12/organic/classmethod/differs:" + "+".join(diff(a, b)), "input": f"{can}|{sc}|{um}",
+                                    "what": f"StereoMolGraph.from_rdmol({can}, stereo_complete={sc}, use_atom_map_number={um}) differs from "
+                                            f"the converter with the same options in {diff(a, b)}", "item": item, "detail": None})
+            if set(mg.atoms) != set(got.atoms) or {frozenset(x) for x in mg.bonds} != {frozenset(x) for x in got.bonds}:
+                out["viol"].append({"sig": "C12/organic/classmethod/molgraph-differs", "input": f"{can}|{um}",
+                                    "what": f"MolGraph.from_rdmol({can}) has other atoms / bonds than StereoMolGraph.from_rdmol",
+                                    "item": item, "detail": None})
     # distinct stereoisomers (distinct canonical isomeric SMILES) are unequal
     for opt, lst in per_iso.items():
         if not opt[2]:
